@@ -335,6 +335,25 @@ func runScalars(raw json.RawMessage, seed int64, rec *Rec) {
 			chars = append(chars, string(r))
 		}
 		rec.Add(E("result", "chars", chars, "present", val != "", "waited_ms", at.Sub(t0).Milliseconds()))
+	case "errmeta_limit":
+		// a handler fails with metadata and a long message; the client's read limit is smaller than the error payload:
+		// whatever code the client reports, the handler's metadata is in the error (C11 "on failure at least in the
+		// error's metadata")
+		h := connect.NewUnaryHandler("/verif.v1.Svc/M", func(_ context.Context, r *connect.Request[BV]) (*connect.Response[BV], error) {
+			e := connect.NewError(connect.CodeResourceExhausted, errors.New(strings.Repeat("quota ", 60)))
+			e.Meta().Add("X-M", "m1")
+			e.Meta().Add("X-M", "m2")
+			return nil, e
+		})
+		client := connect.NewClient[BV, BV](&memTransport{h: h, major: 2}, "http://verif.test/verif.v1.Svc/M",
+			append(clientProtoOpts(s.Proto), connect.WithReadMaxBytes(100))...)
+		_, err := client.CallUnary(context.Background(), connect.NewRequest(&BV{}))
+		var ce *connect.Error
+		meta := []string{}
+		if errors.As(err, &ce) {
+			meta = append(meta, ce.Meta().Values("X-M")...)
+		}
+		rec.Add(E("result", "ok", err == nil, "code", codeOf(err), "meta", meta))
 	case "enc_reuse":
 		// a unary *connect.Request sent twice through a client that compresses above a threshold: first with a large
 		// message (compressed), then with a small one (not compressed). The second exchange must be consistent: the
